@@ -5,5 +5,5 @@ Require Extraction.
 Require Import ExtrOcamlBasic ExtrOcamlString.
 Extraction Language OCaml.
 Extraction "../ocaml/c18/model.ml" compute_next strictly_incr all_distinct prop_ok final_ok
-  accept_sample accept_samples phase_ok choose_ts gen_consulted step init run handed_out sched_ok
-  Z.to_N N.to_nat Z.add Z.ltb.
+  accept_sample accept_samples phase_ok choose_ts frames_ts gen_consulted step init run handed_out sched_ok
+  Z.to_N N.to_nat Z.add Z.sub Z.ltb.
